@@ -714,6 +714,21 @@ theorem tm_worker_step {b b' : BState} {o o' : Oracle} (hv : tm_VND b) (h : work
     · simp only [tm_Q, List.length_nil]; omega
     · simp only [tm_U, tm_S, hw, tm_ins, tm_stale_nil]; omega
     · simp only [hw, tm_cur]; omega
+  case space0Overflow c hw _ _ =>
+    refine ⟨rfl, rfl, rfl, tm_Wf_step ?_ ?_ ?_⟩
+    · simp only [tm_Q, List.length_nil]; omega
+    · simp only [tm_U, tm_S, hw, tm_ins, tm_stale_nil]; omega
+    · simp only [hw, tm_cur]; omega
+  case evSpaceOverflow c e s hw _ _ =>
+    refine ⟨rfl, rfl, rfl, tm_Wf_step ?_ ?_ ?_⟩
+    · simp only [tm_Q, List.length_nil]; omega
+    · simp only [tm_U, tm_S, hw, tm_ins, tm_stale_nil]; omega
+    · simp only [hw, tm_cur]; omega
+  case emptyOverflow c hw _ _ =>
+    refine ⟨rfl, rfl, rfl, tm_Wf_step ?_ ?_ ?_⟩
+    · simp only [tm_Q, List.length_nil]; omega
+    · simp only [tm_U, tm_S, hw, tm_ins, tm_stale_nil]; omega
+    · simp only [hw, tm_cur]; omega
   all_goals
     have hw := ‹b.w = _›
     refine ⟨rfl, rfl, rfl, tm_Wf_step (Nat.le_refl _) ?_ ?_⟩
